@@ -1567,7 +1567,7 @@ pub fn c18_whole_histories(ctx: &mut Ctx) {
         ctx.states += hist;
         eprintln!("[C18] splice enumeration depth {}: {hist} histories x ({} x {} kinds) = {variants} spliced executions {:.1}s", mcfg.depth, if single_only { "every single position".to_string() } else { format!("2^{} - 1 position sets", mcfg.depth) }, SPLICE_KINDS.len(), ctx.run.elapsed() - t1);
         ctx.runs.push(J::obj(vec![
-            ("label", J::s("engine B: every update history of this depth executed plain and then once for every non-empty set of positions x every kind of read-only call (get k0, get k1, len+is_empty, full iteration) spliced in after exactly those positions; files compared after close")),
+            ("label", J::s("engine B: every update history of this depth executed plain and then once for every non-empty set of positions x every kind of read-only call (get k0, get k1, len+is_empty, full iteration, the statistics calls, the other lookups) spliced in after exactly those positions; files compared after close")),
             ("depth", J::Int(mcfg.depth as i64)),
             ("position_sets", J::s(if single_only { "every single position" } else { "every non-empty set of positions" })),
             ("histories", J::Int(hist as i64)),
